@@ -31,11 +31,19 @@ func c06Gen(rt *rapid.T) wProg {
 		p.Cfg.Anon = []int{3}
 	}
 	p.Sess = append([]int(nil), gPick(rt, [][]int{{0, 1, 2}, {0, 1, 2, 3}, {0, 0, 1, 2}, {0, 1, 1, 2, 3}}, "layout")...)
+	gGrpc(rt, &p, 20)
 	kind := "new"
 	if gPct(rt, 25) {
 		kind = "nch"
 	}
-	p.Ops = append(p.Ops, wOp{K: "sub", S: 0, T: kind})
+	// the creator may name the own mode in the creating request (with or without O)
+	create := wOp{K: "sub", S: 0, T: kind, A: gPick(rt, []string{"", "", "", "", "", "", "", "", "", "JRWPS", "JP", "JRWPASDO", "RWP"}, "cmode")}
+	if gPct(rt, 15) {
+		// the topic is created with default access in the same request: valid, asking for O, or half invalid
+		create.H = map[string]any{"defacs": map[string]any{"auth": gPick(rt, []string{"JRWPS", "JRWPSO", "JRWPSO", "JRWPASDO", "jrwp"}, "cauth"),
+			"anon": gPick(rt, []string{"N", "", "JRO", "XYZ", "XYZ", "J?"}, "canon")}}
+	}
+	p.Ops = append(p.Ops, create)
 	for s := 1; s < len(p.Sess); s++ {
 		if gPct(rt, 65) {
 			p.Ops = append(p.Ops, wOp{K: "sub", S: s, T: "g0", A: gPick(rt, gOwnWant, "want")})
@@ -75,6 +83,24 @@ func c06Gen(rt *rapid.T) wProg {
 				}
 			}
 			return -1
+		}
+		if i == 0 && len(p.Cfg.Anon) > 0 && gPct(rt, 50) {
+			// the owner opens the group to anonymous users, with a default that asks for too much; the anonymous user joins
+			p.Ops = append(p.Ops, wOp{K: "set", S: 0, T: "g0", A: "defacs", B: gPick(rt, []string{"JRWPO", "JRWP", "JRWPASDO"}, "anondef"), H: map[string]any{"side": "anon"}})
+			if hs := sessOfUser(3); hs > 0 {
+				p.Ops = append(p.Ops, wOp{K: "sub", S: hs, T: "g0"})
+			}
+		}
+		if i == 1 && gPct(rt, 12) {
+			// first contact with user 3 through a P2P topic created with an explicit default access
+			k := gInt(rt, 1, len(p.Sess)-1, "p2pcreator")
+			if p.Sess[k] != 3 {
+				p.Ops = append(p.Ops, wOp{K: "sub", S: k, T: "p3", H: map[string]any{"defacs": map[string]any{"auth": gPick(rt, []string{"JRWSDO", "JRWPASDO", "JRW", "JRWPA"}, "p2pdef"), "anon": "N"}}})
+			}
+		}
+		if i == 2 && p.Cfg.Root && gPct(rt, 40) {
+			// the root session asks for somebody else's 'me' / 'fnd'
+			p.Ops = append(p.Ops, wOp{K: "sub", S: 0, T: gPick(rt, []string{"me", "me", "fnd"}, "selft"), Obo: gInt(rt, 2, 3, "selfobo")})
 		}
 		if i == 0 && p.Cfg.MaxSubs > 0 && gPct(rt, 50) {
 			// the group (channel-enabled or not) lets every authenticated user join: everybody tries,
